@@ -78,16 +78,24 @@ def runB (g : Cfg) : R → List BOp → R × List Bytes
 def framed (chunked : Bool) (ds : List Bytes) : Bytes :=
   (ds.map fun d => if d = [] then [] else frame chunked d).flatten
 
-/-- status code, reason phrase and framing flag of a state -/
-def Line (sc : Nat) (st : Bytes) (ch : Bool) (r : R) : Prop :=
-  r.statusCode = sc ∧ r.status = st ∧ r.chunked = ch
+/-- what a body-phase operation does to the header map -/
+def BOp.onHeader : BOp → Header → Header
+  | .setH k v, h => hset h k v
+  | .addH k v, h => hadd h k v
+  | .delH k, h => hdel h k
+  | _, h => h
 
-/-- the ghost head is what `g.head` made of SOME state with this status line and framing flag -/
-def HeadOf (g : Cfg) (sc : Nat) (st : Bytes) (ch : Bool) (hd : Option Bytes) : Prop :=
-  ∀ H, hd = some H → ∃ rE, H = g.head rE ∧ Line sc st ch rE
+/-- status code, reason phrase and framing flag of a state, and a property `K` of its header map -/
+def Line (K : Header → Prop) (sc : Nat) (st : Bytes) (ch : Bool) (r : R) : Prop :=
+  r.statusCode = sc ∧ r.status = st ∧ r.chunked = ch ∧ K r.header
 
-theorem headOf_after (g : Cfg) (sc st ch) (r : R) (hd : Option Bytes) (hl : Line sc st ch r)
-    (h : HeadOf g sc st ch hd) : HeadOf g sc st ch (hdAfter g r hd) := by
+/-- the ghost head is what `g.head` made of SOME state with this status line, framing flag and header
+property -/
+def HeadOf (g : Cfg) (K : Header → Prop) (sc : Nat) (st : Bytes) (ch : Bool) (hd : Option Bytes) : Prop :=
+  ∀ H, hd = some H → ∃ rE, H = g.head rE ∧ Line K sc st ch rE
+
+theorem headOf_after (g : Cfg) (K) (sc st ch) (r : R) (hd : Option Bytes) (hl : Line K sc st ch r)
+    (h : HeadOf g K sc st ch hd) : HeadOf g K sc st ch (hdAfter g r hd) := by
   unfold hdAfter
   split
   · exact h
@@ -96,16 +104,19 @@ theorem headOf_after (g : Cfg) (sc st ch) (r : R) (hd : Option Bytes) (hl : Line
     exact ⟨r, rfl, hl⟩
 
 theorem runB_spec (g : Cfg) (hg : NoFail g) (v : Option Nat) (ops : List BOp) (hok : ∀ op ∈ ops, op.ok)
+    (K : Header → Prop) (hKops : ∀ op ∈ ops, ∀ h, K h → K (op.onHeader h))
     (sc : Nat) (st : Bytes) (ch : Bool)
-    (r : R) (hd : Option Bytes) (B : Bytes) (h : WInv v r hd B) (hl : Line sc st ch r)
-    (hh : HeadOf g sc st ch hd) :
+    (r : R) (hd : Option Bytes) (B : Bytes) (h : WInv v r hd B) (hl : Line K sc st ch r)
+    (hh : HeadOf g K sc st ch hd) :
     ∃ hd', WInv v (runB g r ops).1 hd' (B ++ framed r.chunked (runB g r ops).2) ∧
       (hd.isSome = true → hd' = hd) ∧ (runB g r ops).1.chunked = r.chunked ∧
-      Line sc st ch (runB g r ops).1 ∧ HeadOf g sc st ch hd' := by
+      Line K sc st ch (runB g r ops).1 ∧ HeadOf g K sc st ch hd' := by
   induction ops generalizing r hd B with
   | nil => exact ⟨hd, by simpa [runB, framed] using h, fun _ => rfl, rfl, hl, hh⟩
   | cons op ops ih =>
     have hok' : ∀ op ∈ ops, op.ok := fun o ho => hok o (List.mem_cons_of_mem _ ho)
+    have hK' : ∀ op ∈ ops, ∀ h, K h → K (op.onHeader h) := fun o ho => hKops o (List.mem_cons_of_mem _ ho)
+    have hKop := hKops op (List.mem_cons_self ..)
     have hop : op.ok := hok op (List.mem_cons_self ..)
     cases op with
     | write d =>
@@ -115,7 +126,7 @@ theorem runB_spec (g : Cfg) (hg : NoFail g) (v : Option Nat) (ops : List BOp) (h
         have e0 : write g r [] = (r, .ok 0) := by unfold write; simp
         rw [e0]
         dsimp only
-        obtain ⟨hd', i1, i2, i3, i4, i5⟩ := ih hok' r hd B h hl hh
+        obtain ⟨hd', i1, i2, i3, i4, i5⟩ := ih hok' hK' r hd B h hl hh
         refine ⟨hd', ?_, i2, i3, i4, i5⟩
         simpa [framed] using i1
       · rw [write_unfold g r d hne h.pre]
@@ -127,11 +138,11 @@ theorem runB_spec (g : Cfg) (hg : NoFail g) (v : Option Nat) (ops : List BOp) (h
           obtain ⟨r', w⟩ := p
           dsimp only at w1 w2 w3 w4 ⊢
           subst w2
-          have hl2 : Line sc st ch ({ r with hasBody := true } : R) := hl
-          have hl' : Line sc st ch r' := by
-            obtain ⟨p1, p2, p3, _, _⟩ := hproj
-            exact ⟨p1.trans hl.1, p2.trans hl.2.1, p3.trans hl.2.2⟩
-          obtain ⟨hd', i1, i2, i3, i4, i5⟩ := ih hok' r' _ _ w1 hl' (headOf_after g sc st ch _ hd hl2 hh)
+          have hl2 : Line K sc st ch ({ r with hasBody := true } : R) := hl
+          have hl' : Line K sc st ch r' := by
+            obtain ⟨p1, p2, p3, _, p5⟩ := hproj
+            exact ⟨p1.trans hl.1, p2.trans hl.2.1, p3.trans hl.2.2.1, by rw [p5]; exact hl.2.2.2⟩
+          obtain ⟨hd', i1, i2, i3, i4, i5⟩ := ih hok' hK' r' _ _ w1 hl' (headOf_after g K sc st ch _ hd hl2 hh)
           refine ⟨hd', ?_, ?_, ?_, i4, i5⟩
           · rw [w3] at i1
             simpa [framed, frame, hne, hc, List.append_assoc] using i1
@@ -152,19 +163,19 @@ theorem runB_spec (g : Cfg) (hg : NoFail g) (v : Option Nat) (ops : List BOp) (h
           obtain ⟨r', w⟩ := p
           dsimp only at hw hproj ⊢
           obtain ⟨w1, w2, w3⟩ := hw
-          have hl' : Line sc st ch r' := by
-            obtain ⟨p1, p2, p3, _, _⟩ := hproj
-            exact ⟨p1.trans hl.1, p2.trans hl.2.1, p3.trans hl.2.2⟩
-          have hl3 : Line sc st ch (contentLength ({ r with hasBody := true } : R)).1 := by
-            obtain ⟨p1, p2, p3, _, _⟩ := contentLength_proj ({ r with hasBody := true } : R)
-            exact ⟨p1.trans hl.1, p2.trans hl.2.1, p3.trans hl.2.2⟩
+          have hl' : Line K sc st ch r' := by
+            obtain ⟨p1, p2, p3, _, p5⟩ := hproj
+            exact ⟨p1.trans hl.1, p2.trans hl.2.1, p3.trans hl.2.2.1, by rw [p5]; exact hl.2.2.2⟩
+          have hl3 : Line K sc st ch (contentLength ({ r with hasBody := true } : R)).1 := by
+            obtain ⟨p1, p2, p3, _, p5⟩ := contentLength_proj ({ r with hasBody := true } : R)
+            exact ⟨p1.trans hl.1, p2.trans hl.2.1, p3.trans hl.2.2.1, by rw [p5]; exact hl.2.2.2⟩
           rcases w3 with ⟨wa, wb⟩ | ⟨wa, wb⟩
           · subst wa
-            have hh' : HeadOf g sc st ch (if v.getD 0 > 0 then hdAfter g (contentLength ({ r with hasBody := true } : R)).1 hd else hd) := by
+            have hh' : HeadOf g K sc st ch (if v.getD 0 > 0 then hdAfter g (contentLength ({ r with hasBody := true } : R)).1 hd else hd) := by
               split
-              · exact headOf_after g sc st ch _ hd hl3 hh
+              · exact headOf_after g K sc st ch _ hd hl3 hh
               · exact hh
-            obtain ⟨hd', i1, i2, i3, i4, i5⟩ := ih hok' r' _ _ wb hl' hh'
+            obtain ⟨hd', i1, i2, i3, i4, i5⟩ := ih hok' hK' r' _ _ wb hl' hh'
             refine ⟨hd', ?_, ?_, ?_, i4, i5⟩
             · rw [w1] at i1
               simpa [framed, frame, hne, hc, List.append_assoc] using i1
@@ -179,17 +190,19 @@ theorem runB_spec (g : Cfg) (hg : NoFail g) (v : Option Nat) (ops : List BOp) (h
               rw [e1] at i2
               exact i2 hs
             · rw [i3, w1, hc]
-          · obtain ⟨hd', i1, i2, i3, i4, i5⟩ := ih hok' r' _ _ wb hl' hh
+          · obtain ⟨hd', i1, i2, i3, i4, i5⟩ := ih hok' hK' r' _ _ wb hl' hh
             refine ⟨hd', ?_, i2, by rw [i3, w1, hc], i4, i5⟩
             rw [w1] at i1
             rcases wa with wa | wa <;> subst wa <;> simpa [framed, hc] using i1
     | flush =>
       simp only [runB, BOp.toOp, step]
       obtain ⟨f1, f2, f3⟩ := flushOp_spec g hg v r hd B h
-      have hl' : Line sc st ch (flushOp g r) := by
-        rw [flushOp_unfold g r h.pre]
-        exact ⟨by simp [hl.1], by simp [hl.2.1], by simp [hl.2.2]⟩
-      obtain ⟨hd', i1, i2, i3, i4, i5⟩ := ih hok' _ _ _ f1 hl' (headOf_after g sc st ch _ hd hl hh)
+      have hl' : Line K sc st ch (flushOp g r) := by
+        refine ⟨?_, ?_, ?_, by rw [f3]; exact hl.2.2.2⟩
+        · rw [flushOp_unfold g r h.pre]; simp [hl.1]
+        · rw [flushOp_unfold g r h.pre]; simp [hl.2.1]
+        · rw [f2]; exact hl.2.2.1
+      obtain ⟨hd', i1, i2, i3, i4, i5⟩ := ih hok' hK' _ _ _ f1 hl' (headOf_after g K sc st ch _ hd hl hh)
       refine ⟨hd', by rw [f2] at i1; exact i1, ?_, by rw [i3, f2], i4, i5⟩
       intro hs
       have hre : r.headEncoded = true := by
@@ -202,15 +215,15 @@ theorem runB_spec (g : Cfg) (hg : NoFail g) (v : Option Nat) (ops : List BOp) (h
     | setH k val =>
       simp only [runB, BOp.toOp, step]
       have := winv_header v r hd B (hset r.header k val) h (hget_hset_ne _ _ _ _ (fun hc => hop hc.symm))
-      exact ih hok' _ _ _ this hl hh
+      exact ih hok' hK' _ _ _ this ⟨hl.1, hl.2.1, hl.2.2.1, hKop _ hl.2.2.2⟩ hh
     | addH k val =>
       simp only [runB, BOp.toOp, step]
       have := winv_header v r hd B (hadd r.header k val) h (hget_hadd_ne _ _ _ _ (fun hc => hop hc.symm))
-      exact ih hok' _ _ _ this hl hh
+      exact ih hok' hK' _ _ _ this ⟨hl.1, hl.2.1, hl.2.2.1, hKop _ hl.2.2.2⟩ hh
     | delH k =>
       simp only [runB, BOp.toOp, step]
       have := winv_header v r hd B (hdel r.header k) h (hget_hdel_ne _ _ _ (fun hc => hop hc.symm))
-      exact ih hok' _ _ _ this hl hh
+      exact ih hok' hK' _ _ _ this ⟨hl.1, hl.2.1, hl.2.2.1, hKop _ hl.2.2.2⟩ hh
 
 end Resp
 
